@@ -38,6 +38,13 @@ func magicRequest(h *history, caps [][2]int) string {
 			x := o.In.bytes()
 			evs = append(evs, fmt.Sprintf("E:0:%d:x%s", caps[i][0], hex.EncodeToString(x)))
 			evs = append(evs, fmt.Sprintf("D:0:%d:x1f%s", caps[i][1], hex.EncodeToString(x)))
+			if o.Src == "reuse" {
+				// the next input encoded into the buffer of the previous encoded form, then decoded: for the
+				// model one more Encode / Decode pair (the capacity of dst does not change its answer)
+				nx := o.In.nextInput().bytes()
+				evs = append(evs, fmt.Sprintf("E:0:0:x%s", hex.EncodeToString(nx)))
+				evs = append(evs, fmt.Sprintf("D:0:0:x1f%s", hex.EncodeToString(nx)))
+			}
 		case "bad":
 			src := hostileSrc(codecByName("magic"), o)
 			evs = append(evs, fmt.Sprintf("D:0:%d:x%s", caps[i][1], hex.EncodeToString(src)))
